@@ -81,10 +81,42 @@ def _blocks(node):
         yield h.body
 
 
+def _pure_default(e):
+    return isinstance(e, ast.Constant) or (isinstance(e, (ast.List, ast.Tuple, ast.Set)) and all(_pure_default(x) for x in e.elts)) or \
+        (isinstance(e, ast.Dict) and not e.keys) or (isinstance(e, ast.Call) and isinstance(e.func, ast.Name) and e.func.id in ("list", "dict", "set") and not e.args and not e.keywords)
+
+
+def split_setdefault(f, notes):
+    """`X.setdefault(K, D).m(...)`  (statement)  ==>  `if K not in X: X[K] = D` ; `X[K].m(...)`   for a simple container expression X, a
+    name / constant key K and a default D that is an empty or constant display (evaluating it has no effect)"""
+    class T(ast.NodeTransformer):
+        def visit_Expr(self, node):
+            c = node.value
+            if isinstance(c, ast.Call) and isinstance(c.func, ast.Attribute) and isinstance(c.func.value, ast.Call):
+                inner = c.func.value
+                if isinstance(inner.func, ast.Attribute) and inner.func.attr == "setdefault" and len(inner.args) == 2 and not inner.keywords \
+                   and _simple_lvalue(inner.func.value) and isinstance(inner.args[0], (ast.Name, ast.Constant)) and _pure_default(inner.args[1]):
+                    X, K, D = inner.func.value, inner.args[0], inner.args[1]
+                    slot = lambda ctx: ast.Subscript(value=copy.deepcopy(X), slice=copy.deepcopy(K), ctx=ctx)
+                    test = ast.Compare(left=copy.deepcopy(K), ops=[ast.NotIn()], comparators=[copy.deepcopy(X)])
+                    init = ast.If(test=test, body=[ast.Assign(targets=[slot(ast.Store())], value=copy.deepcopy(D))], orelse=[])
+                    call = ast.Expr(value=ast.Call(func=ast.Attribute(value=slot(ast.Load()), attr=c.func.attr, ctx=ast.Load()), args=c.args, keywords=c.keywords))
+                    for n in (init, call):
+                        ast.copy_location(n, node)
+                        for m in ast.walk(n):
+                            if not hasattr(m, "lineno"):
+                                ast.copy_location(m, node)
+                    notes.append("line %s: `%s.setdefault(..).%s(..)` read as test + item assignment + method call" % (node.lineno, ast.unparse(X), c.func.attr))
+                    return [init, call]
+            return node
+    T().visit(f)
+
+
 def inline_aliases(fdef):
     """returns (new FunctionDef, [notes]); the input is not modified"""
     f = copy.deepcopy(fdef)
     notes = []
+    split_setdefault(f, notes)
     for _ in range(8):
         if not _inline_one(f, notes):
             break
